@@ -157,4 +157,30 @@ def servedFrom (earlier : List File) : List File → List File
 one name, the first (in the order the builder examines them) is the one served. -/
 def served (fs : List File) : List File := servedFrom [] fs
 
+/-! ### Builder programs
+
+What the documented builder API says a sequence of calls configures (independent of the
+model's `Builder`): every registration counts, in call order; the advertised services are the
+chosen names in call order once `with_service_name` was called at all; "serve the gRPC Reflection
+Service descriptor ... enabled by default - set `include` to false to disable": the last
+`include_reflection_service` call counts, and without one it is on. -/
+
+/-- One builder call, as far as the reading needs it. -/
+inductive Call where
+  | register | serviceName | includeReflection (b : Bool)
+deriving DecidableEq
+
+def includeOf (cs : List Call) : Bool :=
+  match cs.reverse.findSome? (fun c => match c with | .includeReflection b => some b | _ => none) with
+  | some b => b
+  | none => true
+
+def registrationsOf (cs : List Call) : Nat := (cs.filter (· = .register)).length
+def namesOf (cs : List Call) : Nat := (cs.filter (· = .serviceName)).length
+
+/-- The service names of the gRPC server reflection protocol (reflection.proto of grpc/grpc-proto):
+the names under which the two services are reached, and which they declare. -/
+def protocolNameV1 : Name := "grpc.reflection.v1.ServerReflection".toUTF8.toList
+def protocolNameV1alpha : Name := "grpc.reflection.v1alpha.ServerReflection".toUTF8.toList
+
 end Spec.Reflection
